@@ -573,6 +573,7 @@ impl Area for ConfigArea {
         let mut f = AFile::default();
         let mut config: Option<Config> = None;
         let mut state: Option<ConfigState> = None;
+        let mut snapshot: Option<ConfigState> = None;
         let mut toml_path: Option<tempfile::TempPath> = None;
         for op in ops {
             let w0 = op.split_whitespace().next().unwrap_or("");
@@ -580,6 +581,7 @@ impl Area for ConfigArea {
                 "load" => {
                     config = None;
                     state = None;
+                    snapshot = None;
                     let text = render(&f);
                     let mut tf = tempfile::Builder::new().prefix("verif-c20-").suffix(".toml").tempfile().expect("temp file");
                     std::io::Write::write_all(&mut tf, text.as_bytes()).expect("write toml");
@@ -670,11 +672,59 @@ impl Area for ConfigArea {
                 "redispatch" => match (&config, &mut state) {
                     (Some(c), Some(s)) => {
                         let before = s.clone();
+                        if snapshot.is_none() {
+                            snapshot = Some(before.clone());
+                        }
                         let ms = c.generate_config_messages().unwrap_or_default();
                         let mut rej = vec![];
-                        for m in &ms {
-                            if s.dispatch(&m.content).is_err() {
-                                rej.push(show_msg(&m.content).text);
+                        // a debug build asserts in the handlers: a panic is a failure of the case, not of the run
+                        let pass = std::panic::catch_unwind(std::panic::AssertUnwindSafe(|| {
+                            let mut rej = vec![];
+                            for m in &ms {
+                                if s.dispatch(&m.content).is_err() {
+                                    rej.push(show_msg(&m.content).text);
+                                }
+                            }
+                            rej
+                        }));
+                        match pass {
+                            Ok(v) => rej = v,
+                            Err(e) => {
+                                let msg = e.downcast_ref::<String>().cloned().or_else(|| e.downcast_ref::<&str>().map(|x| x.to_string())).unwrap_or_else(|| "panic".into());
+                                r.oracle.push(("reload-panicked".into(), msg.chars().take(300).collect()));
+                                r.out.push("panicked".into());
+                                continue;
+                            }
+                        }
+                        // ---- property oracles, independent of the model: the state is what the first load produced
+                        {
+                            let mut a = snapshot.clone().unwrap();
+                            let mut b = s.clone();
+                            a.request_counts.clear();
+                            b.request_counts.clear();
+                            if a != b {
+                                let da = show_state(&a);
+                                let db = show_state(&b);
+                                let what = da.split(' ').zip(db.split(' ')).find(|(x, y)| x != y).map(|(x, y)| format!("{} -> {}", &x[..x.len().min(160)], &y[..y.len().min(160)])).unwrap_or_else(|| "(values of existing entries differ)".into());
+                                r.oracle.push(("reload-changed-state".into(), format!("dispatching the same command list again changed the state: {what}")));
+                            }
+                            for (cl, v) in &s.backends {
+                                let mut seen = BTreeSet::new();
+                                for x in v {
+                                    if !seen.insert((x.backend_id.clone(), x.address)) {
+                                        r.oracle.push(("duplicate-entry-after-reload".into(), format!("cluster {cl}: backend ({}, {}) is present twice", x.backend_id, x.address)));
+                                        break;
+                                    }
+                                }
+                            }
+                            for (cl, v) in &s.tcp_fronts {
+                                let mut seen = BTreeSet::new();
+                                for x in v {
+                                    if !seen.insert(tcp_key(&x.address.to_string(), &x.tags)) {
+                                        r.oracle.push(("duplicate-entry-after-reload".into(), format!("cluster {cl}: tcp frontend {} is present twice", x.address)));
+                                        break;
+                                    }
+                                }
                             }
                         }
                         // request_counts is a census of requests received, not configuration
@@ -683,9 +733,6 @@ impl Area for ConfigArea {
                         a.request_counts.clear();
                         b.request_counts.clear();
                         let same = a == b;
-                        if !same {
-                            r.oracle.push(("reload-changes-state".into(), "dispatching the same messages again changed the state".into()));
-                        }
                         // load the same file again: nothing to do
                         if let Some(p) = &toml_path {
                             match Config::load_from_path(p.to_str().unwrap()) {
